@@ -203,7 +203,7 @@ func (w *c04World) state(s c04Snap, also c04Snap) string {
 // the jkl price the handlers will see, computed here from the oracle store (not by keeper.GetJklPrice)
 func (w *c04World) jklPrice() *big.Int {
 	def := sdk.MustNewDecFromStr("0.20").BigInt()
-	feed, found := w.e.App.OracleKeeper.GetFeed(w.e.Ctx, w.e.App.StorageKeeper.GetParams(w.e.Ctx).PriceFeed)
+	feed, found := w.e.App.OracleKeeper.GetFeed(w.e.Ctx, w.params().PriceFeed)
 	if !found {
 		return def
 	}
@@ -219,7 +219,7 @@ func (w *c04World) jklPrice() *big.Int {
 }
 
 func (w *c04World) env() string {
-	p := w.e.App.StorageKeeper.GetParams(w.e.Ctx)
+	p := w.params()
 	return fmt.Sprintf("{| e_height := %s; e_now := %s; e_ppt := %s; e_refc := %s; e_pol := %s; e_jkl := %s |}",
 		cZ(w.e.Ctx.BlockHeight()), cZbig(c04TimeNs(w.e.Ctx.BlockTime())), cZ(p.PricePerTbPerMonth), cZ(p.ReferralCommission), cZ(p.PolRatio), cZbig(w.jklPrice()))
 }
@@ -388,7 +388,7 @@ func (w *c04World) buy(b c04Buy) error {
 	e, r := w.e, w.r
 	creator := Acct(b.Creator)
 	msg := &storagetypes.MsgBuyStorage{Creator: Spell(creator, b.CreatorUp), ForAddress: b.For, DurationDays: b.Days, Bytes: b.Bytes, PaymentDenom: b.Denom, Referral: b.Referral}
-	params := e.App.StorageKeeper.GetParams(e.Ctx)
+	params := w.params()
 	// ---- glue for the model
 	forTerm := "None"
 	forAcc, ferr := sdk.AccAddressFromBech32(b.For)
@@ -427,14 +427,14 @@ func (w *c04World) buy(b c04Buy) error {
 			}
 		}
 		if gbs > 0 && durNs >= 30*c04DayNs {
-			var cost sdk.Int
-			if pn := Guard(func() { cost = e.App.StorageKeeper.GetStorageCost(e.Ctx, gbs, hours) }); pn == "" {
+			if cost, pnk := w.refCost(gbs, hours); !pnk {
 				price := cost
 				if pl, ok := pre.Plans[string(forAcc)]; ok && pl.End.Cmp(c04TimeNs(e.Ctx.BlockTime())) > 0 {
 					remMs := new(big.Int).Quo(new(big.Int).Sub(pl.End, c04TimeNs(e.Ctx.BlockTime())), big.NewInt(1_000_000))
 					if remMs.IsInt64() {
-						old := e.App.StorageKeeper.GetStorageCost(e.Ctx, pl.Avail/c04GB, remMs.Int64()/3_600_000)
-						price = cost.Sub(old)
+						if old, pnk2 := w.refCost(pl.Avail/c04GB, remMs.Int64()/3_600_000); !pnk2 {
+							price = cost.Sub(old)
+						}
 					}
 				}
 				if referred {
@@ -626,7 +626,7 @@ func (w *c04World) post(b c04Post) error {
 	e, r := w.e, w.r
 	creator := Acct(b.Creator)
 	msg := &storagetypes.MsgPostFile{Creator: Spell(creator, b.CreatorUp), Merkle: []byte(b.Merkle), FileSize: b.Size, ProofType: 0, MaxProofs: b.MaxProofs, Expires: b.Expires, Note: b.Note}
-	params := e.App.StorageKeeper.GetParams(e.Ctx)
+	params := w.params()
 	// glue: the end of the gauge, time.AddDate as Go computes it
 	h := e.Ctx.BlockHeight()
 	hours := (b.Expires - h) * 6 / 60 / 60
@@ -646,8 +646,7 @@ func (w *c04World) post(b c04Post) error {
 		if kbs < 1024 {
 			kbs = 1024
 		}
-		var cost sdk.Int
-		if pn := Guard(func() { cost = e.App.StorageKeeper.GetStorageCostKbs(e.Ctx, kbs, hours) }); pn == "" && cost.IsInt64() {
+		if cost, pnk := w.refCostKbs(kbs, hours); !pnk && cost.IsInt64() {
 			v := cost.Int64()
 			wantPay = &v
 		}
@@ -739,8 +738,57 @@ func (w *c04World) post(b c04Post) error {
 
 // ---------------------------------------------------------------- generators
 
+// params reads the storage parameters from the parameter store itself (what governance wrote), not through the keeper
+func (w *c04World) params() storagetypes.Params {
+	var p storagetypes.Params
+	ss, _ := c15ParamsKeeper(w.e).GetSubspace(storagetypes.ModuleName)
+	ss.GetParamSet(w.e.Ctx, &p)
+	return p
+}
+
+// the two cost functions, re-computed here with the price found in the oracle store (the monitors' reference; the
+// code's own functions are tied to the model by the CostFn / CostKbs cases)
+func (w *c04World) refCost(gbs, hours int64) (c sdk.Int, panicked bool) {
+	pn := Guard(func() {
+		base := sdk.NewDec(w.params().PricePerTbPerMonth)
+		yearly := base.Mul(sdk.MustNewDecFromStr("12.5").QuoInt64(15))
+		var f sdk.Dec
+		if hours < 365*24 {
+			switch {
+			case gbs >= 20_000:
+				f = base.Mul(sdk.MustNewDecFromStr("12.5").QuoInt64(15))
+			case gbs >= 5_000:
+				f = base.Mul(sdk.NewDec(14).QuoInt64(15))
+			default:
+				f = base
+			}
+		} else {
+			switch {
+			case gbs >= 20_000:
+				f = yearly.Mul(sdk.MustNewDecFromStr("10.42").Quo(sdk.MustNewDecFromStr("12.5")))
+			case gbs >= 5_000:
+				f = yearly.Mul(sdk.MustNewDecFromStr("11.67").Quo(sdk.MustNewDecFromStr("12.5")))
+			default:
+				f = yearly
+			}
+		}
+		total := f.QuoInt64(3).QuoInt64(1000).QuoInt64(720).MulInt64(gbs).MulInt64(hours)
+		c = total.Quo(sdk.NewDecFromBigIntWithPrec(w.jklPrice(), 18)).MulInt64(1000000).TruncateInt()
+	})
+	return c, pn != ""
+}
+
+func (w *c04World) refCostKbs(kbs, hours int64) (c sdk.Int, panicked bool) {
+	pn := Guard(func() {
+		perKbHour := sdk.NewDec(w.params().PricePerTbPerMonth).QuoInt64(3).QuoInt64(1000).QuoInt64(1000).QuoInt64(1000).QuoInt64(720)
+		total := perKbHour.MulInt64(kbs).MulInt64(hours)
+		c = total.Quo(sdk.NewDecFromBigIntWithPrec(w.jklPrice(), 18)).MulInt64(1000000).TruncateInt()
+	})
+	return c, pn != ""
+}
+
 func (w *c04World) setFeed(price string) {
-	name := w.e.App.StorageKeeper.GetParams(w.e.Ctx).PriceFeed
+	name := w.params().PriceFeed
 	switch price {
 	case "":
 		w.e.App.OracleKeeper.RemoveFeed(w.e.Ctx, name)
@@ -752,9 +800,22 @@ func (w *c04World) setFeed(price string) {
 }
 
 func (w *c04World) setParams(ref, pol, ppt int64) {
-	p := w.e.App.StorageKeeper.GetParams(w.e.Ctx)
+	_ = w.e.App.StorageKeeper.GetParams(w.e.Ctx) // a running node has read its parameters before a proposal passes
+	ss, _ := c15ParamsKeeper(w.e).GetSubspace(storagetypes.ModuleName)
+	q := func(v int64) []byte { return []byte(fmt.Sprintf("%q", fmt.Sprint(v))) }
+	var e1, e2, e3 error
+	if pn := Guard(func() {
+		e1 = ss.Update(w.e.Ctx, storagetypes.KeyReferrals, q(ref))
+		e2 = ss.Update(w.e.Ctx, storagetypes.KeyPOLRatio, q(pol))
+		e3 = ss.Update(w.e.Ctx, storagetypes.KeyPricePerTbPerMonth, q(ppt))
+	}); pn == "" && e1 == nil && e2 == nil && e3 == nil {
+		w.r.Hist("params-route", "governance")
+		return
+	}
+	p := w.params()
 	p.ReferralCommission, p.PolRatio, p.PricePerTbPerMonth = ref, pol, ppt
 	w.e.App.StorageKeeper.SetParams(w.e.Ctx, p)
+	w.r.Hist("params-route", "keeper")
 }
 
 func (w *c04World) advance(blocks int64, d time.Duration) {
@@ -814,7 +875,7 @@ func c04Functions(r *RunCtx) error {
 		return "(Some " + cZbig(v) + ")"
 	}
 	one := func(kbs bool, a, h int64) {
-		params := e.App.StorageKeeper.GetParams(e.Ctx)
+		params := w.params()
 		var got *big.Int
 		pn := Guard(func() {
 			if kbs {
@@ -966,6 +1027,26 @@ func c04History(r *RunCtx, p *PRNG, k int) error {
 		_ = e.Fund(Acct(6), "ujkl", 1_000_000)
 		if err := w.buy(c04Buy{Creator: 6, For: Acct(6).String(), Days: 60, Bytes: 2 * c04GB, Denom: "ujkl", RefKind: "none"}); err != nil {
 			return err
+		}
+		// (4) the feed moves between two purchases of one block: the second payer is charged at the new price
+		w.setFeed("0.25")
+		if err := w.buy(c04Buy{Creator: 1, For: Acct(1).String(), Days: 45, Bytes: 4 * c04GB, Denom: "ujkl", RefKind: "none"}); err != nil {
+			return err
+		}
+		w.setFeed("0.50")
+		if err := w.buy(c04Buy{Creator: 2, For: Acct(2).String(), Days: 45, Bytes: 4 * c04GB, Denom: "ujkl", RefKind: "none"}); err != nil {
+			return err
+		}
+		w.setFeed("0.35")
+		// (5) governance sets the liquidity share, then the referral commission, to 0%: nothing is paid at a default rate
+		for _, rt := range [][2]int64{{25, 0}, {0, 40}, {0, 0}, {25, 40}} {
+			w.setParams(rt[0], rt[1], 8)
+			if err := w.buy(c04Buy{Creator: 3, For: Acct(5).String(), Days: 30 + rt[0] + rt[1], Bytes: 7 * c04GB, Denom: "ujkl", Referral: Acct(2).String(), RefKind: "other"}); err != nil {
+				return err
+			}
+			if err := w.buy(c04Buy{Creator: 4, For: Acct(7).String(), Days: 31 + rt[0] + rt[1], Bytes: 6 * c04GB, Denom: "ujkl", RefKind: "none"}); err != nil {
+				return err
+			}
 		}
 		// the discount boundary: exactly 365 days is still the 10% discount, 366 days the 5% one
 		for _, d := range []int64{365, 366} {
